@@ -1,4 +1,5 @@
 import XModel.TableRect
+import XModel.TableRect2
 /-!
 # C14 — every Table the API produces is rectangular and leaves its source untouched
 Model: the derivations of `XModel/Table.lean` (`selectRows`, `selectCols`, `copyT`, `mulT`, `addT`) on
@@ -127,5 +128,136 @@ theorem C14_chain_rect : ∀ (ds : List Deriv) (t r : Tbl), Rect t →
     its argument, so this holds by `rfl` for any function.  The real hazard (numpy views sharing buffers between a table
     and its source) cannot be expressed here; it is checked on the implementation by the snapshot oracle only. -/
 theorem C14_source_unchanged (t : Tbl) (ps : List Nat) : (fun src => (selectRows src ps, src)) t = (selectRows t ps, t) := rfl
+
+/-! ### wrappers of the model-level results (statements as printed by `#check`) -/
+section wrapped
+
+/-- **the checked constructor** (`newT`: raises unless all columns have one length and the index column is among them) yields a rectangular, cache-coherent table -/
+theorem C14_constructor_rect :
+    ∀ (cols : List (String × List TableM.Cell)) (index : String) (t : TableM.Tbl),
+      TableM.newT cols index = Except.ok t →
+        TableM.Rect t ∧
+          TableM.Coherent t ∧
+            t.index = index ∧
+              t.colNames = List.map (fun x => x.fst) cols ∧
+                t.data = cols ∧ TableM.Tbl.nrows t = List.length (List.headD cols ("", [])).snd :=
+  @TableM.newT_rect
+
+/-- … and accepts exactly those inputs -/
+theorem C14_constructor_accepts_iff :
+    ∀ (cols : List (String × List TableM.Cell)) (index : String),
+      (∃ t, TableM.newT cols index = Except.ok t) ↔
+        index ∈ List.map (fun x => x.fst) cols ∧
+          ∀ (p : String × List TableM.Cell),
+            p ∈ cols → ∀ (q : String × List TableM.Cell), q ∈ cols → List.length p.snd = List.length q.snd :=
+  @TableM.newT_ok_iff
+
+/-- column assignment keeps the table rectangular, whatever its outcome -/
+theorem C14_column_assignment_rect :
+    ∀ (t : TableM.Tbl),
+      TableM.Rect t →
+        ∀ (name : String) (vals : List TableM.Cell),
+          TableM.Rect (TableM.setCol t name vals).fst ∧
+            TableM.Tbl.nrows (TableM.setCol t name vals).fst = TableM.Tbl.nrows t :=
+  @TableM.setCol_rect
+
+/-- cell assignment keeps it rectangular -/
+theorem C14_cell_assignment_rect :
+    ∀ (t : TableM.Tbl),
+      TableM.Rect t →
+        ∀ (col : String) (row : TableM.Row) (v : TableM.Cell),
+          TableM.Rect (TableM.setCell t col row v).fst ∧
+            TableM.Tbl.nrows (TableM.setCell t col row v).fst = TableM.Tbl.nrows t ∧
+              (TableM.setCell t col row v).fst.colNames = t.colNames ∧ (TableM.setCell t col row v).fst.index = t.index :=
+  @TableM.setCell_rect
+
+/-- deleting a non-index column keeps it rectangular -/
+theorem C14_column_deletion_rect :
+    ∀ (t : TableM.Tbl),
+      TableM.Rect t →
+        ∀ (name : String),
+          name ≠ t.index →
+            TableM.Rect (TableM.delCol t name).fst ∧ TableM.Tbl.nrows (TableM.delCol t name).fst = TableM.Tbl.nrows t :=
+  @TableM.delCol_rect
+
+/-- VALUES, not only shape: cell (c, k) of a row selection is cell (c, ps[k]) of the source -/
+theorem C14_row_selection_cells :
+    ∀ (t : TableM.Tbl),
+      TableM.Rect t →
+        ∀ (ps : List Nat),
+          (∀ (j : Nat), j ∈ ps → j < TableM.Tbl.nrows t) →
+            ∀ (c : String),
+              c ∈ t.colNames →
+                ∀ (k : Nat),
+                  TableM.Tbl.cell (TableM.selectRows t ps) c k = Option.bind ps[k]? fun j => TableM.Tbl.cell t c j :=
+  @TableM.selectRows_cell
+
+/-- a copy has the source's cells -/
+theorem C14_copy_cells :
+    ∀ (t : TableM.Tbl) (c : String),
+      c ∈ t.colNames → ∀ (k : Nat), TableM.Tbl.cell (TableM.copyT t) c k = TableM.Tbl.cell t c k :=
+  @TableM.copyT_cell
+
+/-- k repetitions: cell j is the source's cell j mod nrows -/
+theorem C14_repetition_cells :
+    ∀ (t : TableM.Tbl),
+      TableM.Rect t →
+        ∀ (k : Nat) (r : TableM.Tbl),
+          TableM.mulT t k = Except.ok r →
+            ∀ (c : String),
+              c ∈ t.colNames →
+                ∀ (j : Nat),
+                  TableM.Tbl.cell r c j =
+                    if j < k * TableM.Tbl.nrows t then TableM.Tbl.cell t c (j % TableM.Tbl.nrows t) else none :=
+  @TableM.mulT_cell
+
+/-- a + b with ANOTHER table b: a's cells, then b's -/
+theorem C14_add_cells :
+    ∀ (a b r : TableM.Tbl),
+      TableM.Rect a →
+        TableM.addT a b = Except.ok r →
+          ∀ (c : String),
+            c ∈ a.colNames →
+              c ∈ b.colNames →
+                ∀ (j : Nat),
+                  TableM.Tbl.cell r c j =
+                    if j < TableM.Tbl.nrows a then TableM.Tbl.cell a c j else TableM.Tbl.cell b c (j - TableM.Tbl.nrows a) :=
+  @TableM.addT_cell
+
+/-- concatenate of two tables with the same columns -/
+theorem C14_concatenate_cells :
+    ∀ (a b r : TableM.Tbl),
+      TableM.Rect a →
+        TableM.concatT [a, b] = Except.ok r →
+          (∀ (c : String), c ∈ a.colNames → c ∈ b.colNames) →
+            ∀ (c : String),
+              c ∈ a.colNames →
+                ∀ (j : Nat),
+                  TableM.Tbl.cell r c j =
+                    if j < TableM.Tbl.nrows a then TableM.Tbl.cell a c j else TableM.Tbl.cell b c (j - TableM.Tbl.nrows a) :=
+  @TableM.concatT_two_cell
+
+/-- transposition: row k of the source becomes column 'row k', cells rendered as text -/
+theorem C14_transpose_cells :
+    ∀ (t : TableM.Tbl),
+      TableM.Rect t →
+        ∀ (k : Nat),
+          k < TableM.Tbl.nrows t →
+            ∀ (i : Nat) (hi : i < List.length t.colNames),
+              ∃ x,
+                TableM.Tbl.cell t t.colNames[i] k = some x ∧
+                  TableM.Tbl.cell (TableM.transposeT t) ("row" ++ toString k) i = some (TableM.Cell.str (TableM.cellStr x)) :=
+  @TableM.transposeT_cell_rect
+
+/-- **every chain** of derivations (rows, cols, copy, repetition, `+` and `concatenate` with OTHER rectangular tables, transposition) and column / cell assignments / deletions, starting from a table the checked constructor accepted, ends rectangular -/
+theorem C14_chain_from_constructor :
+    ∀ (cols : List (String × List TableM.Cell)) (index : String) (t : TableM.Tbl),
+      TableM.newT cols index = Except.ok t →
+        ∀ (ds : List TableM.Deriv2) (r : TableM.Tbl),
+          (∀ (d : TableM.Deriv2), d ∈ ds → TableM.Deriv2.Valid d) →
+            List.foldlM TableM.applyDeriv2 t ds = Except.ok r → TableM.Rect r :=
+  @TableM.chain2_from_new
+
+end wrapped
 
 end Properties.C14
